@@ -723,8 +723,9 @@ def rule_E10(ctx):
                 branch = x
         if branch is None:
             raise AnalysisError(f'Array.{nm}: array.array branch not found')
-        attrs = {y.attr for s in branch.body for y in ast.walk(s) if isinstance(y, ast.Attribute) and isinstance(y.value, ast.Name) and y.value.id == p}
-        res[nm] = (f, branch, attrs)
+        _pt, pbody, _pe = G.pos_if(branch)
+        attrs = {y.attr for s in pbody for y in ast.walk(s) if isinstance(y, ast.Attribute) and isinstance(y.value, ast.Name) and y.value.id == p}
+        res[nm] = (f, branch, attrs, pbody)
     ext = res['extend']
     # the byte width of the foreign items must be compared with this Array's item width before the bytes are appended
     if 'itemsize' not in ext[2]:
@@ -738,9 +739,9 @@ def rule_E10(ctx):
     else:
         r.ok('extend typecode')
     # the byte order and kind are in the dtype NAME: the acceptance test must compare the names (or the dtypes) too
-    tests = [ast.unparse(x.test) for x in ast.walk(ext[1]) if isinstance(x, ast.If) and G.raises_in(x.body)]
+    tests = [ast.unparse(x.test) for b in ext[3] for x in ast.walk(b) if isinstance(x, ast.If) and (G.raises_in(x.body) or G.raises_in(x.orelse))]
     import re as _re
-    if not any(('.name' in t and 'other_dtype' in t) or _re.search(r'_dtype\s*!=|!=\s*other_dtype\b(?!\.)', t) for t in tests):
+    if not any(t.count('.name') >= 2 or _re.search(r'_dtype\s*(!=|==)\s*\w+\b(?!\.)|\b\w+\s*(!=|==)\s*self\._dtype\b(?!\.)', t) for t in tests):
         r.fail(ext[0].key, 'extend(array.array): dtype names not compared', 'the acceptance test no longer compares the dtype names: a native-endian '
                'array.array is accepted by an Array of the opposite byte order (same width and kind) and its bytes are re-read swapped',
                loc=ext[0].loc(ext[1]))
